@@ -1,5 +1,6 @@
 """C13 - peer messages round-trip through the wire format and decoding is total (structural part: table agreement, TLV rules, varint boundaries)."""
 from engine import *
+import ordimpls
 import provenance
 import tlv, tlvloop
 
@@ -435,4 +436,5 @@ RULES = [
 	('13.v', 'field-versus-field comparisons (a received value against a limit, an id against an id) are the reviewed ones: same fields, same operator (rules/provenance.py)', lambda F: provenance.cmps_for_property(F, 'C13', '13.v')),
 	('13.z', 'named protocol / policy constants in this property\'s files have their reviewed values (rules/provenance.py)', lambda F: provenance.consts_for_property(F, 'C13', '13.z')),
 	('13.x', 'range indexing of fixed-size buffers stays in bounds wherever the end is statically bounded (a wire length byte can be 255; rules/provenance.py)', lambda F: provenance.arrays_for_property(F, 'C13', '13.x')),
+	('13.o', 'hand-written eq / cmp / partial_cmp / hash impls in this property\'s files: same field on both sides, reviewed direction, no reviewed key lost, hash within eq (rules/ordimpls.py)', lambda F: ordimpls.for_property(F, 'C13', '13.o')),
 ]
